@@ -116,6 +116,49 @@ theorem ladder_default : mxstepLadder 500000 10 500 = [500, 5000, 50000, 500000]
 /-- a user-given cap that is not a power-of-ten multiple is the last value tried. -/
 example : mxstepLadder 20000 10 500 = [500, 5000, 20000] := by decide
 
+/-- **the retry ladder, for every cap**: at least one attempt is made, the first one with the starting `mxstep`, and
+every value tried lies between the starting value and the cap (or is the starting value itself when the cap is below
+it) — no attempt ever exceeds the user's `max_step`. -/
+theorem ladder_bounds (maxStep : Nat) : ∀ (fuel cur : Nat),
+    ∀ k ∈ mxstepLadder maxStep fuel cur, cur ≤ k ∧ k ≤ max cur maxStep := by
+  intro fuel
+  induction fuel with
+  | zero => intro cur k hk; simp [mxstepLadder] at hk
+  | succ fuel ih =>
+    intro cur k hk
+    unfold mxstepLadder at hk
+    split at hk
+    · simp only [List.mem_singleton] at hk; subst hk; exact ⟨le_refl _, le_max_left _ _⟩
+    · rename_i hlt
+      rcases List.mem_cons.mp hk with rfl | hk
+      · exact ⟨le_refl _, le_max_left _ _⟩
+      · obtain ⟨h1, h2⟩ := ih _ k hk
+        have hmin : cur ≤ min (cur * 10) maxStep := by omega
+        have hmax : max (min (cur * 10) maxStep) maxStep = maxStep := by omega
+        rw [hmax] at h2
+        exact ⟨le_trans hmin h1, le_trans h2 (le_max_right _ _)⟩
+
+theorem ladder_head (maxStep fuel cur : Nat) : (mxstepLadder maxStep (fuel + 1) cur).head? = some cur := by
+  unfold mxstepLadder; split <;> rfl
+
+/-- with a positive starting value the values strictly increase from one attempt to the next, so no `mxstep` is tried
+twice. -/
+theorem ladder_increasing (maxStep : Nat) : ∀ (fuel cur : Nat), 0 < cur →
+    (mxstepLadder maxStep fuel cur).Pairwise (· < ·) := by
+  intro fuel
+  induction fuel with
+  | zero => intro cur _; simp [mxstepLadder]
+  | succ fuel ih =>
+    intro cur hc
+    unfold mxstepLadder
+    split
+    · simp
+    · rename_i hlt
+      have hnext : cur < min (cur * 10) maxStep := by omega
+      refine List.pairwise_cons.mpr ⟨?_, ih _ (by omega)⟩
+      intro k hk
+      exact lt_of_lt_of_le hnext (ladder_bounds maxStep fuel _ k hk).1
+
 variable {Rows : Type}
 
 /-- **a failed integration is never reported as numbers.** -/
